@@ -24,6 +24,10 @@ pub struct CrashParams {
     pub nested: bool,
     /// trigger ids (known findings about crash points) that may be applied
     pub triggers: Vec<String>,
+    /// do not judge the crash points of the final clean close while a session is open (the close rolls the session
+    /// back in process, where an UPDATE is not undone - the listed in-place finding; crashes before the close are judged)
+    #[serde(default)]
+    pub skip_close_with_open_session: bool,
 }
 
 /// committed contents: table name -> sorted rows
@@ -421,6 +425,9 @@ pub fn run_once(p: &CrashParams, hist: &[usize]) -> StepReport {
                 points.sort();
             }
         }
+    }
+    if p.skip_close_with_open_session && open_sessions {
+        points.retain(|&pt| pt <= end_at);
     }
     let mut n_points = 0u64;
     let mut n_opens = 0u64;
